@@ -7,7 +7,7 @@ DRIVER = dev_ctl.DRIVER
 REQUIRED_THEOREMS = ["stage_follows_setup", "data_in_only_after_in_setup", "in_token_answered_only_in_data_or_status_in", "out_data_answered_only_in_status_out", "setup_always_restarts", "other_endpoint_tokens_are_stutter", "other_endpoint_transactions_are_stutter"]
 RULE = dev_ctl.RULE
 ASSUMPTIONS = dev_ctl.ASSUMPTIONS
-PARTIAL = ""
+PARTIAL = dev_ctl.PARTIAL["C07"]
 
 
 def gen_cases(tier, rng):
